@@ -69,7 +69,7 @@ func runOverlap(w *world, c *Overlap, res *result) {
 		tps[g] = &slowTP{TracerProvider: sdktrace.NewTracerProvider(sdktrace.WithSpanProcessor(rec)), slow: slow}
 		rd := sdkmetric.NewManualReader()
 		w.moreReaders = append(w.moreReaders, rd)
-		mps[g] = &recProvider{MeterProvider: sdkmetric.NewMeterProvider(sdkmetric.WithReader(rd)), log: w.log, slow: slow}
+		mps[g] = &recProvider{MeterProvider: sdkmetric.NewMeterProvider(sdkmetric.WithReader(rd)), log: w.log, slow: slow, fwd: w.fwd}
 	}
 	start := make(chan struct{})
 	var wg sync.WaitGroup
